@@ -11,6 +11,9 @@ NOTE = ("Trusted base: the Go type checker (go/types), go/packages loading of /r
 
 # id -> (technique, level text, design ref)
 CLAIMS = {
+ "C18": ("name agreement of hash-input type tags (resolved constants per HashInput method) + operator/method agreement of the comparison methods (AST of the returned expression) + sibling unification",
+         "Structural necessary conditions: every hashable value kind tags its hash input with its own type tag, each comparison method applies the operator its name states, and sibling widths implement comparisons identically.",
+         "DESIGN.md §4 C18"),
  "C47": ("forbidden-operation scan and controlling-condition analysis of the two sampling functions (SSA) + switch-arm row coherence + error-edge termination",
          "Structural necessary conditions: the random value is never reduced by remainder/division/multiplication, a sample is accepted only under random <= max with fresh bytes per iteration, zero modulo is rejected, and each type arm uses its own value type and width.",
          "DESIGN.md §4 C47"),
